@@ -244,6 +244,22 @@ func c14ExecRun(t *rapid.T) {
 	if cacheOn {
 		initialCache = plush.VerifCachedTemplates()
 	}
+	if scenario == 2 && rapid.Bool().Draw(t, "parentwriter") {
+		// somebody keeps Setting (keys no template reads) on the shared
+		// parent while its children render
+		count("c14_s2_parent_writer_runs", 1)
+		nw := 1 + uni(t, "nwrites", 6)
+		sim.Go("W", func() {
+			for n := 0; n < nw; n++ {
+				for _, par := range parents {
+					if par != nil {
+						par.Set(fmt.Sprintf("wz%d", n%3), n)
+						_ = par.Has("wz0")
+					}
+				}
+			}
+		})
+	}
 	mark := raceBegin()
 	err := sim.Run()
 	races, raceText := raceEnd(mark)
